@@ -285,3 +285,103 @@ func init() {
 			return out
 		}})
 }
+
+// ---- PRNGBUF
+//
+// Re-keying a sampler (`WithPRNG`) must start from an empty buffer of random bytes: bytes already drawn from the old
+// generator and the read position belong to the old stream. A WithPRNG method that takes from its receiver a field
+// holding buffered bytes (a struct with a []byte, directly or through a pointer) makes the re-keyed sampler emit
+// leftovers of the old generator — two samplers given the same key then disagree — and lets the copy and the original
+// consume each other's bytes.
+func holdsBytes(t types.Type, depth int) bool {
+	if depth > 3 || t == nil {
+		return false
+	}
+	switch u := deref(t).Underlying().(type) {
+	case *types.Slice:
+		if b, ok := u.Elem().Underlying().(*types.Basic); ok && b.Kind() == types.Uint8 {
+			return true
+		}
+	case *types.Struct:
+		for i := 0; i < u.NumFields(); i++ {
+			if holdsBytes(u.Field(i).Type(), depth+1) {
+				return true
+			}
+		}
+	}
+	return false
+}
+
+func scanPRNGBuf(c *core.Ctx) []ob {
+	var out []ob
+	n := 0
+	c.FuncDecls(func(pk *packages.Package, file *ast.File, fd *ast.FuncDecl) {
+		if fd.Recv == nil || fd.Body == nil || fd.Name.Name != "WithPRNG" || fileIsTestSupport(c.Program, fd.Pos()) {
+			return
+		}
+		info := pk.TypesInfo
+		recv := recvObj(info, fd)
+		named, _ := core.RecvNamed(info, fd)
+		if recv == nil || named == nil {
+			return
+		}
+		st := structOf(named)
+		if st == nil {
+			return
+		}
+		fkey := core.FuncKey(pk, fd)
+		for i := 0; i < st.NumFields(); i++ {
+			f := st.Field(i)
+			if !holdsBytes(f.Type(), 0) {
+				continue
+			}
+			// samplers nested in the receiver are re-keyed by their own WithPRNG
+			if nt := namedOf(f.Type()); nt != nil && strings.HasSuffix(nt.Obj().Name(), "Sampler") {
+				continue
+			}
+			n++
+			key := fmt.Sprintf("PRNGBUF:%s#%s", fkey, f.Name())
+			carried := token.NoPos
+			ast.Inspect(fd.Body, func(x ast.Node) bool {
+				switch v := x.(type) {
+				case *ast.KeyValueExpr:
+					if k, ok := v.Key.(*ast.Ident); ok && k.Name == f.Name() {
+						if sel, ok := unparen(v.Value).(*ast.SelectorExpr); ok && sel.Sel.Name == f.Name() {
+							if id, ok := unparen(sel.X).(*ast.Ident); ok && info.Uses[id] == recv {
+								carried = v.Pos()
+							}
+						}
+					}
+				case *ast.AssignStmt:
+					for j, l := range v.Lhs {
+						if ls, ok := unparen(l).(*ast.SelectorExpr); ok && ls.Sel.Name == f.Name() && j < len(v.Rhs) {
+							if sel, ok := unparen(v.Rhs[j]).(*ast.SelectorExpr); ok && sel.Sel.Name == f.Name() {
+								if id, ok := unparen(sel.X).(*ast.Ident); ok && info.Uses[id] == recv {
+									carried = v.Pos()
+								}
+							}
+						}
+					}
+				}
+				return true
+			})
+			if carried == token.NoPos {
+				out = append(out, okOb("PRNGBUF", key, c.Rel(fd.Pos()), "not taken from the receiver", true))
+			} else {
+				out = append(out, violOb("PRNGBUF", key, c.Rel(carried), fmt.Sprintf("%s takes %s, which holds bytes already drawn from the previous generator and the read position, from its receiver: the re-keyed sampler emits leftovers of the old stream and shares its buffer with the original", fkey, f.Name())))
+			}
+		}
+	})
+	c.Stats["prngbuf_fields"] = n
+	return out
+}
+
+func init() {
+	core.Register(&core.Rule{Name: "PRNGBUF", Props: []string{"C17", "C10"},
+		Doc: "a WithPRNG method does not take from its receiver a field that holds buffered random bytes (it allocates a fresh buffer for the new generator)",
+		Run: func(c *core.Ctx) []ob {
+			out := scanPRNGBuf(c)
+			out = append(out, core.Floor("PRNGBUF", nil, "byte-buffer fields of re-keyable samplers", c.Stats["prngbuf_fields"], 1)...)
+			return out
+		}})
+}
